@@ -5,6 +5,7 @@
 -/
 import TextwrapModel.Ansi
 import TextwrapModel.Gen.Tables
+import TextwrapModel.Linebreak
 namespace TW
 
 /-- `ch_width` with the `unicode-width` feature -/
@@ -15,5 +16,21 @@ def cwCrude (c : Char) : Nat := lookupRuns Gen.widthRunsCrude c.toNat 0
 def isAlnumStd (c : Char) : Bool := lookupRuns Gen.alnumRuns c.toNat 0 == 1
 /-- `char::is_whitespace` -/
 def isWsStd (c : Char) : Bool := Gen.wsList.contains c.toNat
+
+end TW
+
+namespace TW
+
+/-- the tables of `unicode_linebreak` as regenerated from the crate cargo resolved (class of
+    every scalar value from `break_property`, pair table and bit constants from its sources) -/
+def lbTables : LbTables where
+  pair st k := (Gen.lbPair.getD st []).getD k 0
+  cls c := lookupRuns Gen.lbClassRuns c.toNat 0
+  allowed v := v &&& Gen.lbAllowedBit != 0
+  mandatory v := v &&& Gen.lbMandatoryBit != 0
+  next v := v &&& (255 ^^^ (Gen.lbAllowedBit ||| Gen.lbMandatoryBit))
+  sot := Gen.lbSot
+  eot := Gen.lbEot
+  zwj := Gen.lbZwj
 
 end TW
